@@ -682,6 +682,14 @@ func TestC16(t *testing.T) {
 		genFullMeta(rt, c)
 		c.Contents = nil
 		c.Tree = nil
+		c.Constraints = false
+		// list items padded with blanks are trimmed, nothing else
+		want := append([]string(nil), c.Meta.Depends...)
+		for i := range c.Meta.Depends {
+			if rapid.IntRange(0, 2).Draw(rt, fmt.Sprintf("pad%d", i)) == 0 {
+				c.Meta.Depends[i] = rapid.SampledFrom([]string{" ", "  ", "\t"}).Draw(rt, fmt.Sprintf("padl%d", i)) + c.Meta.Depends[i] + rapid.SampledFrom([]string{" ", "", "  "}).Draw(rt, fmt.Sprintf("padr%d", i))
+			}
+		}
 		text := string(c.YAML("/r"))
 		if !strings.Contains(text, "$") {
 			e1, e2 := genEnv(rt, "e1"), genEnv(rt, "e2")
@@ -694,7 +702,7 @@ func TestC16(t *testing.T) {
 				vs.add("C16.dollar-free.env-dependent", "", "a document without '$' parses differently under %v and %v", e1, e2)
 			} else {
 				// and equals the plain decode: list items are only trimmed
-				if !eqStrings(c1.Depends, c.rel(c.Meta.Depends, "")) || c1.Maintainer != c.Meta.Maintainer || c1.Vendor != c.Meta.Vendor || c1.Homepage != c.Meta.Homepage {
+				if !eqStrings(c1.Depends, want) || c1.Maintainer != c.Meta.Maintainer || c1.Vendor != c.Meta.Vendor || c1.Homepage != c.Meta.Homepage {
 					vs.add("C16.dollar-free.changed", "", "values without '$' were altered: depends %q maintainer %q", c1.Depends, c1.Maintainer)
 				}
 			}
